@@ -340,6 +340,14 @@ class WriterExec:
             if how == "single":
                 for d in dicts:
                     guarded(self.writer.append_data, d, sig="writer.append_data")
+            elif how == "bulk":
+                # the caller fills one list object again and again (clear + extend), as a batching loop does
+                if not hasattr(self, "_batch"):
+                    self._batch = []
+                self._batch.clear()
+                self._batch.extend(dicts)
+                guarded(self.writer.append_data, self._batch, sig="writer.append_data")
+                self.recycled = True
             else:
                 guarded(self.writer.append_data, dicts, sig="writer.append_data")
         else:
@@ -380,6 +388,7 @@ def run_history(ops):
         if not done:
             ex.finalize_and_check()
         return {"nontrivial": ex.appends >= 2 and ex.crossed, "classes": ["writer-" + ops[0]["fmt"], "buffer-" + (ops[0]["buffer_kind"] if ex.buffered else "none")]
+                + (["writer-recycled-batch-list"] if getattr(ex, "recycled", False) else [])
                 + (["writer-custom-separator"] if (ops[0]["fmt"] != "parquet" and ops[0].get("sep", "\t") != "\t") else []),
                 "counters": {"rows_written": len(ex.model)}}
 
@@ -403,7 +412,7 @@ def _row_strategy(kinds):
         elif k == "mixed":
             parts.append(st.sampled_from([0.0, 1.0, 2.0, 500.0, 503.25, 504.5, -3.0, 0.125, 7.0]))
         else:
-            parts.append(st.sampled_from(SAFE))
+            parts.append(st.sampled_from(SAFE + ['K2C1 "keratin"', 'x"y']))  # a text writer quotes such values, its reader unquotes them
     return st.tuples(*parts).map(list)
 
 
@@ -477,7 +486,7 @@ def extra(tier, seed, shard, nshards, stats):
                                  "classes": ["writer-" + self.ops[0]["fmt"], "buffer-" + (self.ops[0]["buffer_kind"] if self.ex.buffered else "none")],
                                  "counters": {"rows_written": len(self.ex.model), "writer_histories": 1}})
 
-    n = (400 if tier == "quick" else 48000) // nshards
+    n = (1600 if tier == "quick" else 48000) // nshards
     try:
         run_state_machine_as_test(
             hypothesis.seed(seed * 1000 + shard + 500)(WriterMachine),
